@@ -222,7 +222,7 @@ def build_time_course(spec):
     from droplets import Emulsion, EmulsionTimeCourse
 
     ems = [Emulsion([build_droplet(d) for d in fr]) for fr in spec["frames"]]
-    etc = EmulsionTimeCourse(ems, spec["times"]) if spec["frames"] else EmulsionTimeCourse()
+    etc = EmulsionTimeCourse(gen.frames_as_given(ems, spec["times"]), gen.times_as_given(spec["times"], spec["frames"])) if spec["frames"] else EmulsionTimeCourse()
     if spec["grid"] is not None:
         geom, grid = gen.build_cart(spec["grid"])
     else:
